@@ -230,6 +230,22 @@ Proof.
   intros Hs Sp Sq. rewrite gen_add_is_model, gen_sub_is_model, gen_mul_is_model, gen_div_is_model.
   exact (C02_operations_sound steps plo phi p q u v r Hs Sp Sq).
 Qed.
+(* the compositional statement subsumes the original one: a selection of one point per step is a bounded sample, a permutation coupling
+   re-indexes one of the two samples - C02_frechet_sound re-derived from C02_frechet_composes *)
+From PUN Require Import Proofs.ComposeLink.
+Theorem C02_composes_implies_couplings (op : R -> R -> R) (D : R -> Prop) n (XL XR YL YR x y : list R) (pi : list nat) (s : list R) :
+  (forall a a', D a -> a <= a' -> D a') ->
+  (forall a a' b b', D a -> D b -> a <= a' -> b <= b' -> op a b <= op a' b') ->
+  length XL = n -> length XR = n -> length YL = n -> length YR = n ->
+  Rsorted XL -> Rsorted XR -> Rsorted YL -> Rsorted YR ->
+  (forall j, (j < n)%nat -> D (nth j XL 0)) -> (forall j, (j < n)%nat -> D (nth j YL 0)) ->
+  length x = n -> length y = n ->
+  (forall j, (j < n)%nat -> nth j XL 0 <= nth j x 0 <= nth j XR 0) ->
+  (forall j, (j < n)%nat -> nth j YL 0 <= nth j y 0 <= nth j YR 0) ->
+  Permutation pi (seq 0 n) -> Permutation s (outcomes op n x y pi) -> Rsorted s ->
+  forall i, (i < n)%nat ->
+    nth i (fst (frechet_op RN op XL XR YL YR)) 0 <= nth i s 0 <= nth i (snd (frechet_op RN op XL XR YL YR)) 0.
+Proof. exact (frechet_op_sound_from_compose op D n XL XR YL YR x y pi s). Qed.
 Print Assumptions C02_frechet_composes.
 Print Assumptions C02_translated_operations_sound.
 Print Assumptions C02_expression_sound.
